@@ -120,9 +120,12 @@ fn gen_w(r: &mut Rng) -> W {
     }
 }
 
-fn gen_shift(r: &mut Rng, w: u32, tier_thorough: bool) -> u64 {
+/// Shift amounts, the same family for every stream and every width (incl. u256/b256): around 0, around the
+/// width, around 64 and 256, around the u32 boundary (2^31, 2^32-1, 2^32, 2^32+k with k < 64: amounts whose
+/// low 32 bits look like a valid shift), huge powers of two, u64::MAX.
+fn gen_shift(r: &mut Rng, w: u32, _tier_thorough: bool) -> u64 {
     let w = w as u64;
-    match r.below(20) {
+    match r.below(24) {
         0 => 0,
         1 => 1,
         2 => w - 1,
@@ -134,13 +137,14 @@ fn gen_shift(r: &mut Rng, w: u32, tier_thorough: bool) -> u64 {
         8 => 255,
         9 => 256,
         10 => 257,
-        11 => (1u64 << 32) - 1,
-        // 2^32 .. 2^33 only in the thorough tier: with an unbounded BigUint shift these cost ~1 s each
-        12 => if tier_thorough { (1u64 << 32) + r.below(2) } else { 1u64 << 40 },
-        13 => 1u64 << 40,
-        14 => 1u64 << 63,
-        15 => u64::MAX,
-        16 => (1u64 << (40 + r.below(24))) + r.below(3),
+        11 => 1u64 << 31,
+        12 => (1u64 << 32) - 1,
+        13 => 1u64 << 32,
+        14 | 15 => (1u64 << 32) + r.below(64),
+        16 => 1u64 << 40,
+        17 => 1u64 << 63,
+        18 => u64::MAX,
+        19 => (1u64 << (33 + r.below(31))) + r.below(64),
         _ => r.below(2 * w + 2),
     }
 }
